@@ -161,11 +161,31 @@ def signature(B, rec, out, failing):
 
 def run_task(task):
     import checks.C20 as me
+    if task["params"].get("mode") == "depth_unit":
+        import time
+        from checks.c20_depth_unit import explore_depth
+        t0 = time.time()
+        r = explore_depth(task["params"]["N"], task["timebox"], succ_order=task["params"]["order"], seed=task.get("seed", 0),
+                          selftest=bool(task["params"].get("selftest")))
+        inconcl = []
+        if r.get("unmodelled") or r.get("unknown"):
+            inconcl.append({"reason": "depth unit: " + str(r.get("unmodelled") or "unknown")})
+        viol = [{"rules": "", "hist": {}, "kind": "class", "info": {"dag": c}} for c in r["cex"]]
+        return {"label": task["label"], "classes": r["classes"], "exhausted": r["exhausted"], "violations": viol, "inconclusive": inconcl,
+                "observations": r["classes"], "samples": [{"N": task["params"]["N"], "order": task["params"]["order"]}], "queries": {"frontier": r["classes"], "class_unsat": r["classes"] - len(viol)},
+                "z3_s": 0, "real_s": 0, "wall_s": time.time() - t0, "hangs": []}
     return histcheck.run_task(task, me)
 
 
 def replay(rec):
     import checks.C20 as me
+    if rec["params"].get("mode") == "depth_unit":
+        from checks.c20_depth_unit import replay_depth
+        if rec["params"].get("selftest"):
+            return {"reproduces": True, "failing": ["selftest"], "signature": None}
+        bad, got, want = replay_depth(rec["info"]["dag"])
+        return {"reproduces": bool(bad), "failing": [f"after adding edge {rec['info']['dag']['new_edge']} to the DAG {rec['info']['dag']['edges']}: depth of nodes {bad} is {[got[j] for j in bad]}, longest root path is {[want[j] for j in bad]}"] if bad else [],
+                "signature": {"site": "depth"} if bad else None}
     return histcheck.replay(rec, me)
 
 
@@ -188,7 +208,13 @@ def tasks(tier, seed, selftest=False):
             S.append(dict(family="D3", skeleton=sk, timebox=300))
         for fam in ("B22", "CH4"):
             S.append(dict(family=fam, skeleton=("build",), timebox=300, cube_k=4, nbits=20))
-    return histcheck.mk_tasks(PROP, S, seed)
+    T = histcheck.mk_tasks(PROP, S, seed)
+    # one-step inductive unit for depths on a symbolic DAG (checks/c20_depth_unit.py)
+    for N in ((4, 5, 6, 7) if q else (4, 5, 6, 7, 8)):
+        for order in ("asc", "desc"):
+            T.append({"prop": PROP, "family": "-", "label": f"depth-unit/N={N}/{order}", "timebox": 100 if q else 1500, "seed": seed,
+                      "params": {"mode": "depth_unit", "N": N, "order": order}})
+    return T
 
 
 def main(tier, seed, t0, selftest=False):
@@ -196,5 +222,6 @@ def main(tier, seed, t0, selftest=False):
     return common.finish(PROP, tier, seed, "model_checking", results, t0, selftest=selftest, functions=FUNCTIONS,
                          bounds={"history": "K<=2 ops from " + ",".join(OPS) + " + build; metadata compared after every op",
                                  "families": "U2 (K=1 exhaustive, K=2 time-boxed in quick), D3, U3 slices; B22/CH4 build (thorough)",
+                                 "depth unit": "real _ensure_edge/_update_node_depth on a symbolic DAG with <= 7 (thorough 8) nodes in topological numbering, symbolic adjacency, pre-state depths = longest root paths, any new or repeated edge; both successor iteration orders",
                                  "is_subgraph": "against a fresh fully expanded diagram of the same network (both directions)"},
                          assumptions=["contract stubs of DESIGN.md §8 validated on every representative"])
